@@ -8,6 +8,7 @@ from __future__ import annotations
 
 import ast
 import inspect
+import os
 import textwrap
 
 from vf.coqlit import cbool, clist, cN, cstr
@@ -356,10 +357,395 @@ def rotation_formats(PathTemplateWriter, stamp_only=False):
     return stamp_spec, name_fmt, counter_fmt
 
 
-def shapes():
-    """All shape facts as a dict (also used by the check's harness)."""
-    import importlib
+# ------------------------------------------------------------------------------------------------------
+# OBSERVED facts: the real methods are run on purpose-built probes that log what is done to them.  The ast recognisers
+# above are cross-checks only: recognised-and-contradicting -> Unsupported; not recognised -> the observation is used
+# and a note is written into the generated file.
 
+def _scratch():
+    import tempfile
+    root = "/verif/.work"
+    os.makedirs(root, exist_ok=True)
+    return tempfile.mkdtemp(prefix="c17facts.", dir=root)
+
+
+def observe_exit_del():
+    """which of flush()/close() AbstractWriter.__exit__ / __del__ call on self, in order"""
+    from flow.record.adapter import AbstractWriter
+    log = []
+
+    class Probe(AbstractWriter):
+        def write(self, rec):
+            log.append("write")
+
+        def flush(self):
+            log.append("MFlush")
+
+        def close(self):
+            log.append("MClose")
+
+    p = Probe()
+    del log[:]
+    AbstractWriter.__exit__(p, None, None, None)
+    ex = list(log)
+    del log[:]
+    AbstractWriter.__del__(p)
+    de = list(log)
+    for name, calls in (("__exit__", ex), ("__del__", de)):
+        if any(c not in ("MFlush", "MClose") for c in calls):
+            raise Unsupported("AbstractWriter.%s calls %s on the writer" % (name, calls))
+    # through a with-block / a real del, too
+    q = Probe()
+    del log[:]
+    with q:
+        pass
+    if log != ex:
+        raise Unsupported("leaving a with-block does %s, AbstractWriter.__exit__ does %s" % (log, ex))
+    return ex, de
+
+
+def observe_avro(tmp):
+    """-> (flush installs the placeholder writer, close installs it before flushing, close flushes before closing fp)"""
+    import flow.record.adapter.avro as avro_mod
+    real = avro_mod.fastavro
+    events = []
+    state = {"in_flush": 0}
+
+    class _WriteNS:
+        def __getattr__(self, name):
+            return getattr(real.write, name)
+
+        @staticmethod
+        def Writer(*a, **kw):
+            events.append(("install", state["in_flush"] > 0))
+            return real.write.Writer(*a, **kw)
+
+    class _Shim:
+        write = _WriteNS()
+
+        def __getattr__(self, name):
+            return getattr(real, name)
+
+    avro_mod.fastavro = _Shim()
+    try:
+        # 1. flush() on a fresh writer
+        w = avro_mod.AvroWriter(os.path.join(tmp, "f1.avro"))
+        del events[:]
+        w.flush()
+        flush_installs = any(e[0] == "install" for e in events) and w.writer is not None
+        if any(e[0] == "install" for e in events) != (w.writer is not None):
+            raise Unsupported("AvroWriter.flush creates a fastavro writer without keeping it")
+        w.close()
+        # 2. close() on a fresh writer, flush() wrapped on the instance
+        w = avro_mod.AvroWriter(os.path.join(tmp, "f2.avro"))
+        orig_flush = w.flush
+
+        def logged_flush():
+            fp = w.fp
+            events.append(("flush", w.writer is not None, bool(fp is None or getattr(fp, "closed", False))))
+            state["in_flush"] += 1
+            try:
+                return orig_flush()
+            finally:
+                state["in_flush"] -= 1
+
+        w.flush = logged_flush
+        del events[:]
+        w.close()
+        del w.flush
+        ev = list(events)
+    finally:
+        avro_mod.fastavro = real
+    flush_calls = [e for e in ev if e[0] == "flush"]
+    close_flushes = bool(flush_calls) and not flush_calls[0][2]
+    first_flush = ev.index(flush_calls[0]) if flush_calls else len(ev)
+    close_installs = any(e[0] == "install" and not e[1] for e in ev[:first_flush])
+    if any(e[0] == "install" and not e[1] for e in ev[first_flush:]):
+        raise Unsupported("AvroWriter.close installs a writer after its flush")
+    return flush_installs, close_installs, close_flushes
+
+
+def observe_stream_close(tmp):
+    """does StreamWriter.close() on a writer that wrote nothing leave the stream header (= does it flush)?"""
+    from flow.record.adapter.stream import StreamWriter
+    p = os.path.join(tmp, "s.records")
+    w = StreamWriter(p)
+    w.close()
+    return os.path.getsize(p) > 0
+
+
+class _InnerProbe:
+    """stands in for RecordWriter inside SplitWriter: logs what is done to it"""
+
+    def __init__(self, log, idx, path):
+        self.log, self.idx, self.path = log, idx, path
+        log.append(("new", idx, path))
+
+    def write(self, r):
+        self.log.append(("write", self.idx))
+
+    def flush(self):
+        self.log.append(("flush", self.idx))
+
+    def close(self):
+        self.log.append(("close", self.idx))
+
+
+def _split_probe(path, **kwargs):
+    """a SplitWriter whose inner writers are probes -> (writer, event log)"""
+    import flow.record.adapter.split as split_mod
+    log = []
+    n = [0]
+
+    def factory(p, **kw):
+        n[0] += 1
+        return _InnerProbe(log, n[0] - 1, p)
+
+    saved = split_mod.RecordWriter
+    split_mod.RecordWriter = factory
+    try:
+        w = split_mod.SplitWriter(path, **kwargs)
+    except Exception:
+        split_mod.RecordWriter = saved
+        raise
+    return w, log, (lambda: setattr(split_mod, "RecordWriter", saved))
+
+
+def observe_split_roll():
+    """-> (roll-over when written >= count (True) / > count (False), the roll-over steps in canonical order)"""
+    results = set()
+    for count in (1, 2, 3):
+        w, log, restore = _split_probe("/nonexistent/x.records", count=count)
+        try:
+            for i in range(3 * count + 3):
+                w.write(object())
+            written_after = w.written
+        finally:
+            restore()
+        # writes that went to the first inner writer
+        first = sum(1 for e in log if e == ("write", 0))
+        if first == count:
+            ge = True
+        elif first == count + 1:
+            ge = False
+        else:
+            raise Unsupported("SplitWriter(count=%d) put %d records into the first part" % (count, first))
+        # the events between the last write to part 0 and the first write to part 1
+        i0 = max(i for i, e in enumerate(log) if e == ("write", 0))
+        i1 = min(i for i, e in enumerate(log) if e == ("write", 1))
+        steps = []
+        for e in log[i0 + 1:i1]:
+            if e == ("flush", 0):
+                steps.append("RFlush")
+            elif e == ("close", 0):
+                steps.append("RClose")
+            elif e[0] == "new" and e[1] == 1:
+                steps.append("RNew")
+            else:
+                raise Unsupported("SplitWriter.write does %r while rolling over" % (e,))
+        # `written` is reset iff every later part holds the same number of records as the first
+        sizes = {}
+        for e in log:
+            if e[0] == "write":
+                sizes[e[1]] = sizes.get(e[1], 0) + 1
+        full = [sizes[k] for k in sorted(sizes)][:-1]
+        if full and all(x == first for x in full):
+            reset = True
+        elif len(full) > 1 and all(x == 1 for x in full[1:]):
+            reset = False
+        else:
+            raise Unsupported("SplitWriter(count=%d) part sizes %s fit neither a reset nor a missing reset" % (count, full))
+        if reset:   # its position among the steps is not observable (and irrelevant): canonically before the new writer
+            k = steps.index("RNew") if "RNew" in steps else len(steps)
+            steps.insert(k, "RReset")
+        results.add((ge, tuple(steps)))
+    if len(results) != 1:
+        raise Unsupported("SplitWriter rolls over differently for different counts: %s" % sorted(results))
+    ge, steps = results.pop()
+    return ge, list(steps)
+
+
+def observe_split_stdout(extra_strings=()):
+    """The (netloc, path) pairs of urlparse(self.path) that SplitWriter takes for stdout, fitted to
+    `netloc in N and path in P` (None = that part is not tested).  Probed over a grid that includes every string
+    literal of the module."""
+    from urllib.parse import urlparse
+    netlocs = {"", "-", "bare.json", "host", "x"} | {x for x in extra_strings if "/" not in x and ":" not in x and "?" not in x and "#" not in x}
+    paths = {"", "-", "out.records", "/abs/out.records", "/-", "/", "dir/out.json"} | {x for x in extra_strings if ":" not in x and "?" not in x and "#" not in x}
+    table = {}
+    for n in sorted(netlocs):
+        for p in sorted(paths):
+            if n:
+                if p and not p.startswith("/"):
+                    continue
+                uri = "probe://" + n + p
+            else:
+                if p.startswith("//"):
+                    continue
+                uri = p
+            u = urlparse(uri)
+            if (u.netloc, u.path) != (n, p):
+                continue
+            try:
+                w, log, restore = _split_probe(uri)
+            except ValueError:
+                # pathlib refused to put a suffix on this name: it was not taken for stdout (stdout keeps the path as it is)
+                table[(n, p)] = False
+                continue
+            try:
+                table[(n, p)] = bool(w.is_stdout)
+                # the flag decides whether the next path gets a suffix
+                if bool(w.is_stdout) != (log[0][2] == uri):
+                    raise Unsupported("SplitWriter(%r): is_stdout=%r but the first path is %r" % (uri, w.is_stdout, log[0][2]))
+            finally:
+                restore()
+    N = sorted({n for (n, p), v in table.items() if v})
+    P = sorted({p for (n, p), v in table.items() if v})
+    for (n, p), v in table.items():
+        # (pairs that cannot be spelled -- a relative path behind a netloc -- are not in the table)
+        if v != (n in N and p in P):
+            raise Unsupported("SplitWriter.is_stdout is not of the form `netloc in N and path in P`: %r -> %r" % ((n, p), v))
+    all_n = sorted({n for (n, p) in table})
+    all_p = sorted({p for (n, p) in table})
+    # a part every probed value of which is accepted (with some value of the other part) is not tested
+    netloc_vals = None if N == all_n else N
+    path_vals = None if P == all_p else P
+    if not N and not P:
+        netloc_vals, path_vals = [], []
+    return netloc_vals, path_vals
+
+
+class _FrozenNow:
+    def __init__(self, value):
+        self.value = value
+        self.calls = 0
+
+    def now(self, tz=None):
+        self.calls += 1
+        return self.value
+
+
+class _FakeDatetime:
+    def __init__(self, value):
+        import datetime as real
+        self.datetime = _FrozenNow(value)
+        self.timezone = real.timezone
+        self.timedelta = real.timedelta
+
+
+def _rotate_once(tmp, fname, when, content=b"x"):
+    """create tmp/fname, run rotate_existing_file on it with the clock frozen at `when` -> the new names in tmp"""
+    import flow.record.stream as S
+    p = os.path.join(tmp, fname)
+    before = set(os.listdir(tmp))
+    with open(p, "wb") as f:
+        f.write(content)
+    saved = S.datetime
+    S.datetime = _FakeDatetime(when)
+    try:
+        S.PathTemplateWriter().rotate_existing_file(p)
+    finally:
+        S.datetime = saved
+    after = set(os.listdir(tmp))
+    if fname in after:
+        raise Unsupported("rotate_existing_file left %s in place" % fname)
+    return sorted(after - before)
+
+
+_STAMP_CACHE = {}
+
+
+def rotation_stamp(when):
+    """the stamp rotate_existing_file puts into a rotated name for the instant `when` (observed on a scratch file)"""
+    key = when.isoformat()
+    if key not in _STAMP_CACHE:
+        import shutil
+        tmp = _scratch()
+        try:
+            new = _rotate_once(tmp, "probe.records.gz", when)
+            if len(new) != 1 or not (new[0].startswith("probe.") and new[0].endswith(".records.gz")):
+                raise Unsupported("rotate_existing_file renamed probe.records.gz to %s" % new)
+            _STAMP_CACHE[key] = new[0][len("probe."):-len(".records.gz")]
+        finally:
+            shutil.rmtree(tmp, ignore_errors=True)
+    return _STAMP_CACHE[key]
+
+
+def observe_rotation(tmp):
+    """-> dict(stamp_spec, name_format, counter (bool), counter_format)"""
+    import datetime as real
+    when = real.datetime(2021, 5, 6, 7, 8, 9, 123456, tzinfo=real.timezone.utc)
+    stamp = rotation_stamp(when)
+    spec = stamp
+    for text, directive in (("123456", "%f"), ("2021", "%Y"), ("05", "%m"), ("06", "%d"), ("07", "%H"), ("08", "%M"), ("09", "%S")):
+        spec = spec.replace(text, directive)
+    if any(ch.isdigit() for ch in spec):
+        raise Unsupported("cannot read a strftime spec off the rotation stamp %r" % stamp)
+    other = real.datetime(1999, 12, 31, 23, 59, 58, 7, tzinfo=real.timezone.utc)
+    if rotation_stamp(other) != other.strftime(spec):
+        raise Unsupported("the rotation stamp is not strftime(%r): %r" % (spec, rotation_stamp(other)))
+    # name format, on both naming conventions
+    d1 = os.path.join(tmp, "r1")
+    os.makedirs(d1)
+    n_gz = _rotate_once(d1, "alpha.records.gz", when, b"first")
+    n_other = _rotate_once(d1, "beta.json", when)
+    if n_gz != ["alpha.%s.records.gz" % stamp]:
+        raise Unsupported("alpha.records.gz was rotated to %s" % n_gz)
+    name_format = "{fname}.{stamp}.{ext}"
+    if n_other != [name_format.format(fname="beta", stamp=stamp, ext=".json")]:
+        raise Unsupported("beta.json was rotated to %s" % n_other)
+    # a second and third rotation within the same second
+    n2 = _rotate_once(d1, "alpha.records.gz", when, b"second")
+    first_kept = open(os.path.join(d1, n_gz[0]), "rb").read() == b"first"
+    if not n2:
+        if first_kept:
+            raise Unsupported("the second rotation created no new name but the first rotated file is intact")
+        return dict(stamp_spec=spec, name_format=name_format, counter=False, counter_format="")
+    if not first_kept:
+        raise Unsupported("the second rotation created %s and changed the first rotated file" % n2)
+    n3 = _rotate_once(d1, "alpha.records.gz", when, b"third")
+    counter_format = "{fname}.{stamp}-{counter}.{ext}"
+    want = [counter_format.format(fname="alpha", stamp=stamp, counter=i, ext="records.gz") for i in (1, 2)]
+    if n2 + n3 != want:
+        raise Unsupported("rotations of one path within a second gave %s, the model names them %s" % (n2 + n3, want))
+    return dict(stamp_spec=spec, name_format=name_format, counter=True, counter_format=counter_format)
+
+
+def _cross_check(notes, what, observed, recogniser):
+    """recognised and different -> Unsupported; not recognised -> note"""
+    try:
+        seen = recogniser()
+    except Unsupported as e:
+        notes.append("%s: shape not recognised (%s); observed behaviour used" % (what, str(e)[:160]))
+        return
+    if seen != observed:
+        raise Unsupported("%s: the source reads as %r but the probe observed %r" % (what, seen, observed))
+
+
+def _module_strings(mod):
+    out = set()
+    try:
+        tree = ast.parse(inspect.getsource(mod))
+    except Exception:
+        return out
+    for n in ast.walk(tree):
+        if isinstance(n, ast.Constant) and isinstance(n.value, str) and len(n.value) <= 12 and all(32 <= ord(c) < 127 for c in n.value) \
+                and " " not in n.value and "{" not in n.value and "\n" not in n.value:
+            out.add(n.value)
+    return out
+
+
+_SHAPES = {}
+
+
+def shapes():
+    """All shape facts as a dict (also used by the check's harness); `notes` lists cross-checks that did not apply."""
+    if _SHAPES:
+        return dict(_SHAPES)
+    import importlib
+    import shutil
+
+    import flow.record.adapter.split as split_mod
     from flow.record.adapter import AbstractWriter
     from flow.record.adapter.avro import AvroWriter
     from flow.record.adapter.split import SplitWriter
@@ -376,32 +762,60 @@ def shapes():
                     break
                 if m in k.__dict__:
                     raise Unsupported("%s overrides %s" % (k.__name__, m))
-    exit_calls = method_calls(AbstractWriter.__exit__)
-    del_calls = method_calls(AbstractWriter.__del__)
-    ev_avro = call_events(AvroWriter.close)
-    avro_flushes = _before(ev_avro, ("self", "flush"), [("fp", "close")])
-    if avro_flushes is None:
-        raise Unsupported("AvroWriter.close never closes self.fp")
-    # the placeholder writer is installed by close() only when it is installed before the flush (or the close of fp)
-    avro_close_placeholder = bool(_before(ev_avro, ("writer", "install"), [("self", "flush"), ("fp", "close")]))
-    if ("writer", "install") in ev_avro and not avro_close_placeholder:
-        raise Unsupported("AvroWriter.close installs a writer after flushing / closing")
-    avro_flush_placeholder = avro_flush_shape(AvroWriter)
-    ev_stream = call_events(StreamWriter.close)
-    closers = [("stream", "close"), ("fp", "close")]
-    s1 = _before(ev_stream, ("self", "flush"), closers)
-    s2 = _before(ev_stream, ("stream", "flush"), closers)
-    if s1 is None:
-        raise Unsupported("StreamWriter.close closes neither self.stream nor self.fp")
-    ge, steps = split_write_shape(SplitWriter)
-    stamp_spec, name_fmt, counter_fmt = rotation_formats(PathTemplateWriter)
-    stdout_netloc, stdout_path = split_stdout_shape(SplitWriter)
-    return dict(exit=exit_calls, del_=del_calls, avro_close_flushes=bool(avro_flushes),
-                avro_flush_placeholder=avro_flush_placeholder, avro_close_placeholder=avro_close_placeholder,
-                split_stdout_netloc=stdout_netloc, split_stdout_path=stdout_path,
-                rotate_counter=counter_fmt is not None, rotated_name_counter_format=counter_fmt or "",
-                stream_close_flushes=bool(s1 or s2), split_ge=ge, split_roll=steps,
-                stamp_spec=stamp_spec, rotated_name_format=name_fmt)
+    notes = []
+    tmp = _scratch()
+    try:
+        exit_calls, del_calls = observe_exit_del()
+        avro_flush_placeholder, avro_close_placeholder, avro_close_flushes = observe_avro(tmp)
+        stream_close_flushes = observe_stream_close(tmp)
+        ge, steps = observe_split_roll()
+        stdout_netloc, stdout_path = observe_split_stdout(_module_strings(split_mod))
+        rot = observe_rotation(tmp)
+    finally:
+        shutil.rmtree(tmp, ignore_errors=True)
+
+    # cross-checks against the source text
+    _cross_check(notes, "AbstractWriter.__exit__", exit_calls, lambda: method_calls(AbstractWriter.__exit__))
+    _cross_check(notes, "AbstractWriter.__del__", del_calls, lambda: method_calls(AbstractWriter.__del__))
+
+    def avro_src():
+        ev = call_events(AvroWriter.close)
+        fl = _before(ev, ("self", "flush"), [("fp", "close")])
+        if fl is None:
+            raise Unsupported("AvroWriter.close never closes self.fp")
+        return (avro_flush_shape(AvroWriter), bool(_before(ev, ("writer", "install"), [("self", "flush"), ("fp", "close")])), bool(fl))
+    _cross_check(notes, "AvroWriter.flush/close", (avro_flush_placeholder, avro_close_placeholder, avro_close_flushes), avro_src)
+
+    def stream_src():
+        ev = call_events(StreamWriter.close)
+        closers = [("stream", "close"), ("fp", "close")]
+        s1 = _before(ev, ("self", "flush"), closers)
+        s2 = _before(ev, ("stream", "flush"), closers)
+        if s1 is None:
+            raise Unsupported("StreamWriter.close closes neither self.stream nor self.fp")
+        return bool(s1 or s2)
+    _cross_check(notes, "StreamWriter.close", stream_close_flushes, stream_src)
+    _cross_check(notes, "SplitWriter.write", (ge, steps), lambda: split_write_shape(SplitWriter))
+
+    def stdout_src():
+        n, p = split_stdout_shape(SplitWriter)
+        return (None if n is None else sorted(n), None if p is None else sorted(p))
+    _cross_check(notes, "SplitWriter.is_stdout", (stdout_netloc, stdout_path), stdout_src)
+
+    def rot_src():
+        spec, name_fmt, counter_fmt = rotation_formats(PathTemplateWriter)
+        return (spec, name_fmt, counter_fmt is not None, counter_fmt or "")
+    _cross_check(notes, "PathTemplateWriter.rotate_existing_file",
+                 (rot["stamp_spec"], rot["name_format"], rot["counter"], rot["counter_format"]), rot_src)
+
+    _SHAPES.update(dict(
+        exit=exit_calls, del_=del_calls, avro_close_flushes=avro_close_flushes,
+        avro_flush_placeholder=avro_flush_placeholder, avro_close_placeholder=avro_close_placeholder,
+        split_stdout_netloc=stdout_netloc, split_stdout_path=stdout_path,
+        rotate_counter=rot["counter"], rotated_name_counter_format=rot["counter_format"],
+        stream_close_flushes=stream_close_flushes, split_ge=ge, split_roll=steps,
+        stamp_spec=rot["stamp_spec"], rotated_name_format=rot["name_format"], notes=notes))
+    return dict(_SHAPES)
 
 
 def gen_writers():
@@ -422,6 +836,8 @@ def gen_writers():
             raise Unsupported("%s is not printable ASCII text: %r" % (name, text))
     out = HEADER
     out += "From Coq Require Import List Bool String NArith.\nImport ListNotations.\nFrom FR Require Import Writers.\nOpen Scope string_scope.\n\n"
+    for note in sh.get("notes", []):
+        out += "(* note: %s *)\n" % note.replace("(*", "( *").replace("*)", "* )")
     out += "(* flow/record/adapter/split.py *)\n"
     out += "Definition default_record_count : N := %s.\n" % cN(count)
     out += "Definition default_suffix_length : N := %s.\n\n" % cN(suffix)
